@@ -950,6 +950,7 @@ class Runner:
         self.setup()
         self.log.ev("start", world={k: v for k, v in self.trace["world"].items() if k != "files"}, swarm=self.trace["swarm"])
         self.loop = SimLoop()
+        self.loop.exec_salt = int(str(self.trace.get("run_seed") or "0"), 16) % 97
         asyncio.set_event_loop(self.loop)
         simnet.install_writable_hook(self.loop, None)
         runner = self
